@@ -305,7 +305,16 @@ def glue_builtins() -> None:
         # block on an event loop trap is to await something),
         # and we want to treat them as suspended for
         # traceback extraction purposes.
-        if agen.ag_running and agen.ag_await is None:
+        #
+        # Only look at ag_await if the generator's frame isn't linked to a
+        # caller, though. If it is, the generator is really executing, and
+        # CPython 3.12.0 and 3.12.1 can then mistake an inline cache entry
+        # after the current instruction for the RESUME that follows an
+        # await, and return whatever is on top of the stack (or beyond it)
+        # as ag_await.
+        if agen.ag_running and (
+            agen.ag_frame.f_back is not None or agen.ag_await is None
+        ):
             return StackSlice(outer=agen.ag_frame)
         return (agen.ag_frame, agen.ag_await)
 
